@@ -52,10 +52,13 @@ def scenarios(tier):
     for be in (("mem", "fs+cache-one") if tier != "thorough" else ("mem", "fs", "fs+cache-all", "fs+cache-one")):
         out.append(("%s|cold|batch-vs-call" % be, be, "cold", [[("g", [1, 2])], [("g", 2)]]))
     out.append(("fs+cache-one|store|batch-vs-call", "fs+cache-one", "store", [[("g", [1, 2])], [("g", 2)]]))
+    # two batches over the same calls in opposite order
+    out.append(("mem|cold|opposite-batches", "mem", "cold", [[("g", [1, 2])], [("g", [2, 1])]]))
     # results that are None, and callers that ignore the result: "nothing to return" must not read as "not memoized"
     for be in (("mem", "fs+cache-one") if tier != "thorough" else ("mem", "fs", "fs+cache-all", "fs+cache-one")):
         out.append(("%s|cold|none-result" % be, be, "cold", [[("gnone", 1)], [("gnone", 1)]]))
         out.append(("%s|cold|ignore-result" % be, be, "cold", [[("g!ignore", 1)], [("g!ignore", 1)]]))
+    out.append(("fs+cache-one|store|ignore-vs-call", "fs+cache-one", "store", [[("g!ignore", 1)], [("g", 1)]]))
     # call trees that cross (ping(1) -> pong(0) against pong(1) -> ping(0)): the per-call locks must not be taken in a cycle
     out.append(("mem|cold|crossing-trees", "mem", "cold", [[("ping", 1)], [("pong", 1)]]))
     # different calls with byte-identical results / under one key override: afterwards a fresh backend serves them all
